@@ -10,6 +10,7 @@
  *   REG list <path> <n> <item>...           default list
  *   REG inaddr <path> <host|%00> <service|%00>
  *   LOAD <file>             conf_read(); prints "LOAD rc=<n>"
+ *   FDS                     prints "FDS n=<open file descriptors>"
  *   DUMP                    canonical dump of the live tree (values hex-encoded)
  *   COPY <src> <dst>        overwrite the file dst in place with the content of src
  *   SNAP / SAME             remember the dump / compare the current dump with it
@@ -20,6 +21,7 @@
  *   REOPEN                  log_reopen()
  */
 #include "src/common.h"
+#include <fcntl.h>
 #include <signal.h>
 #include <sys/wait.h>
 
@@ -340,6 +342,13 @@ static int run_command(char *line)
         int rc = conf_read(f);
         printf("LOAD rc=%d\n", rc);
         free(f);
+    } else if (!strcmp(argv[0], "FDS")) {
+        /* FDS: how many file descriptors are open (a load opens the file and closes it again) */
+        unsigned int n = 0, fd;
+        for (fd = 0; fd < 1024; ++fd)
+            if (fcntl((int)fd, F_GETFD) != -1)
+                n++;
+        printf("FDS n=%u\n", n);
     } else if (!strcmp(argv[0], "XLOAD") && argc >= 2) {
         /* a load that is expected to be rejected */
         char *f = pct_decode(argv[1], NULL);
